@@ -72,31 +72,53 @@ CACHE_API = {0: "ldb_lru_insert", 1: "ldb_lru_lookup", 2: "ldb_lru_release", 3: 
 
 
 def cache_obls(prefix):
+    """shape: one digit per pre-existing entry (1 = cached, unreferenced; 2 = cached, in use; 3 = erased, still referenced)."""
     out = []
-    tuples = []   # (op, entries, api, env, tier)
-    for op in range(6):
-        for e in (1, 2):
-            tuples.append((op, e, 0, 0, "quick"))
-        tuples.append((op, 3, 0, 0, "thorough"))
-    tuples += [(0, 0, 0, 0, "quick"), (1, 0, 0, 0, "quick"), (3, 0, 0, 0, "quick")]
-    for op in (0, 1, 2, 3):
-        tuples.append((op, 2, 0, 1, "quick"))
-        tuples.append((op, 3, 0, 1, "thorough"))
-    for op in (0, 1, 3, 4, 5, 6):
-        tuples.append((op, 0, 1, 0, "quick"))
-    for op in range(6):
-        tuples.append((op, 1, 1, 0, "thorough"))
-    for (op, e, api, env, tier) in tuples:
+    tuples = []   # (op, shape, api, env, tier)
+    INS, LOOK, REL, ERA, PRU, USE, ID = range(7)
+    # shard level, one and two entries
+    for op in (INS, LOOK, ERA, PRU, USE):
+        tuples.append((op, "", 0, 0, "quick"))
+        for sh in ("1", "2", "3"):
+            tuples.append((op, sh, 0, 0, "quick"))
+    for sh in ("2", "3"):
+        tuples.append((REL, sh, 0, 0, "quick"))
+    quick2 = {INS: ("11", "12", "23"), LOOK: ("12", "31"), REL: ("22", "32", "21"), ERA: ("12", "21"), PRU: ("11", "12"), USE: ("13",)}
+    all2 = [a + b for a in "123" for b in "123"]
+    for op in (INS, LOOK, REL, ERA, PRU, USE):
+        for sh in all2:
+            if op == REL and "2" not in sh and "3" not in sh:
+                continue
+            tuples.append((op, sh, 0, 0, "quick" if sh in quick2[op] else "thorough"))
+    for op, shapes in ((INS, ("111", "112", "121", "213")), (LOOK, ("123",)), (REL, ("212", "321")), (ERA, ("121", "213")), (PRU, ("111", "121"))):
+        for sh in shapes:
+            tuples.append((op, sh, 0, 0, "thorough"))
+    # another thread got the lock first
+    for op, shapes in ((INS, ("12",)), (LOOK, ("11", "12")), (REL, ("21", "22")), (ERA, ("11",))):
+        for sh in shapes:
+            tuples.append((op, sh, 0, 1, "quick"))
+    for op, shapes in ((INS, ("11", "21", "112")), (LOOK, ("21", "121")), (REL, ("212",)), (ERA, ("12", "21"))):
+        for sh in shapes:
+            tuples.append((op, sh, 0, 1, "thorough"))
+    # public API on the whole cache object
+    for op in (INS, LOOK, ERA, PRU, USE, ID):
+        tuples.append((op, "", 1, 0, "quick"))
+    for op, sh in ((INS, "1"), (LOOK, "1"), (REL, "2"), (ERA, "1"), (PRU, "1"), (USE, "1")):
+        tuples.append((op, sh, 1, 0, "thorough"))
+    for (op, sh, api, env, tier) in tuples:
+        e = len(sh)
         defs = {"VP_OP": op, "VP_E": e}
+        if e:
+            defs["VP_SHAPE"] = int(sh)
         if api:
             defs["VP_API"] = 1
         if env:
             defs["VP_ENV"] = 1
-        name = "%s.cache-%s-%s-E%d%s" % (prefix, "api" if api else "shard", CACHE_OPS[op], e, "-env" if env else "")
+        name = "%s.cache-%s-%s-S%s%s" % (prefix, "api" if api else "shard", CACHE_OPS[op], sh or "none", "-env" if env else "")
         out.append(Obl(name, "C10/cache.c", include_real=["util/cache.c"], kit=KIT, defs=defs,
                        unwind=18,
                        # the resize path of lru_table_insert is infeasible at this size (elems <= 4 == length): bound 1 + unwinding assertion proves it
-                       unwindset={"memcpy.0": 3, "memcmp.0": 3, "memset.0": 1, "lru_table_resize.0": 1, "lru_table_resize.1": 1,
+                       unwindset={"memcpy.0": 2, "memcmp.0": 2, "memset.0": 1, "lru_table_resize.0": 1, "lru_table_resize.1": 1,
                                   "lru_table_resize.2": 1, "lru_shard_insert.0": e + 2, "lru_shard_prune.0": e + 2,
                                   "lru_table_find.0": e + 2},
                        replace_calls=(["ldb_lru_shard:vp_lru_shard"] if api else []),
@@ -105,8 +127,8 @@ def cache_obls(prefix):
                        desc="real util/cache.c %s from an arbitrary well-formed shard: shard mutex taken once before and released after every access to table/lists/refs/usage (state == ghost at lock, at unlock, on return), no other or nested lock, nothing held on return; effect == cache semantics on the ghost; representation invariant; entries freed exactly when the last reference goes, after one deleter call%s" % (
                            (CACHE_API[op] + "()") if api else ("lru_shard_" + CACHE_OPS[op] + "()"),
                            "; another thread erased / still holds an entry before the lock was granted" if env else ""),
-                       bounds="%d pre-existing entries (symbolic 1-byte keys 0..3, symbolic hashes incl. collisions, charge 0..255, refs 1..3, cached or erased-but-referenced, chain order symbolic), capacity 0..65535, hash table of 4 buckets (no resize)%s" % (
-                           e, "; whole cache object, other 15 shards empty" if api else "; stand-alone shard object")))
+                       bounds="%d pre-existing entries of classes [%s] (1 cached+unreferenced, 2 cached+in use by 1..2 clients, 3 erased but referenced by 1..2 clients); symbolic 1-byte keys 0..3, symbolic hashes incl. full and bucket collisions, charges 0..255, chain order symbolic, capacity 0..65535, hash table of 4 buckets (no resize)%s" % (
+                           e, ",".join(sh) or "-", "; whole cache object, other 15 shards empty" if api else "; stand-alone shard object")))
     return out
 
 
